@@ -19,7 +19,7 @@ CONSTANTS
   IwsVals = {0, 2}
   MaxcVals = {}
   ReqEos = {FALSE}
-  Allow = {}
+  Allow = {"shared_slot", "push_after_recv_drop", "cancel_pending_open"}
   ExportLen = 0
 INVARIANT InvC06
 INVARIANT InvC06conn
